@@ -96,13 +96,16 @@ def run(tier, seed):
     depth = 1 if tier == "quick" else 2
     t1, h1 = steps.start_texts(tier, "expr")
     t2, h2 = steps.start_texts(tier, "eqn")
-    acc = steps.run(V, t1[:h1] + t2[:h2] + t1[h1:] + t2[h2:], depth, "any", seed, h1 + h2)
+    texts = t1[:h1] + t2[:h2] + t1[h1:] + t2[h2:]
+    acc = steps.run(V, texts, depth, "any", seed, h1 + h2)
+    if tier == "quick":
+        acc.merge(steps.run(V, steps.small_texts("expr") + steps.small_texts("eqn"), 2, "any", seed, 0, key="small"))
     cov = {
         "states": len(acc.keys),
         "transitions": acc.n["transitions"],
         "traces_validated_against_impl": acc.n["transitions"],
         "exhaustive": True,
-        "bound": {"start_texts": acc.n["start_texts"], "closure_depth": depth},
+        "bound": {"start_texts": len(texts), "closure_depth": depth},
         "transitions_below_root": acc.n["below_root"],
         "per_config": {k[8:]: v for k, v in sorted(acc.n.items()) if k.startswith("applied:")},
         "explanation": "every applicable (configuration, node) transition of every state, executed on clone_from_root: link audit, "
@@ -112,7 +115,7 @@ def run(tier, seed):
     return acc, cov, ["footprint root = the node (its parent for the associative rotation, the root for the balanced move)"]
 
 
-def replay(case):
+def _replay_direct(case):
     roots = RW.run_trace(case["text"], case["trace"])
     cur = roots[-1]
     everything = audit.all_nodes(cur)
@@ -128,3 +131,20 @@ def replay(case):
     except Exception as e:  # noqa
         error = e
     return [(f"{cname}|{k}|{RW.neighbourhood(node)}", d) for k, d in judge(cur, s, cname, node, result, change, error, snap, everything)]
+
+
+def replay(case):
+    """direct replay of the recorded trace; if the recorded violation depends on state that rule objects
+    carried over from the exploration of the same seed, fall back to re-exploring that seed from fresh
+    rule objects (deterministic: rule objects are reset per seed)"""
+    want = case.get("_core")
+    try:
+        got = _replay_direct(case)
+    except Exception:  # noqa
+        got = []
+    if got and (want is None or any(c == want for c, _ in got)):
+        return got
+    again = steps.reexplore(case, V)
+    if want is not None and any(c == want for c, _ in again):
+        return [(c, d) for c, d in again if c == want]
+    return again or got
